@@ -30,7 +30,8 @@ func init() {
 	}, map[string]propSpec{
 		"C17": {level: "exploration", quickS: 45, thoroughS: 780,
 			probes: []string{"c17_quad_compared", "c17_metamorphic_compared", "c17_tools_stream_buffered", "c17_fail_before_first",
-				"c17_fail_between", "c17_fail_after_last", "c17_client_decoded_stream", "c17_multibyte_split"}},
+				"c17_fail_between", "c17_fail_after_last", "c17_client_decoded_stream", "c17_client_decoded_nonstream", "c17_multibyte_split",
+				"c17_stream_nonstream_compared", "c17_openai_native_compared", "c17_client_cancel_midstream"}},
 	})
 	register(&harnessSpec{
 		name:     "apirace",
@@ -42,6 +43,6 @@ func init() {
 	}, map[string]propSpec{
 		"C15": {level: "exploration", quickS: 60, thoroughS: 780,
 			probes: []string{"c15_ps_checked", "c15_ps_nonempty", "c15_generate_ok", "c15_chat_ok", "c15_embed_ok", "c15_create_ok",
-				"c15_copy_ok", "c15_delete_ok", "c15_blob_upload", "c15_unload", "c15_show_ok", "c15_tags_ok"}},
+				"c15_copy_ok", "c15_delete_ok", "c15_blob_upload", "c15_unload", "c15_show_ok", "c15_tags_ok", "c15_pull_ok", "cdn_chunk_served"}},
 	})
 }
